@@ -473,6 +473,7 @@ class UserSecurityModel(
         verify_authentication(message, credentials, security_params)
         message = decrypt_message(message, credentials)
         validate_usm_message(message)
+        validate_security_level(message, credentials)
         return message
 
     async def send_discovery_message(
@@ -560,6 +561,30 @@ class UserSecurityModel(
             unknown_engine_ids=unknown_engine_ids,
         )
         return out
+
+
+def validate_security_level(message: Message, credentials: V3) -> None:
+    """
+    Ensure that an incoming message was secured at least as well as the
+    credentials of the user demand.
+
+    A message without authentication (or, for users with a privacy key,
+    without encryption) must not be acted upon. Otherwise a response could be
+    forged by simply clearing the corresponding flags. Reports about USM
+    errors are raised by :py:func:`~.validate_usm_message` before.
+
+    :raises UnsupportedSecurityLevel: If the message was secured on a lower
+        level than the request.
+    """
+    flags = message.header.flags
+    if credentials.auth is not None and not flags.auth:
+        raise UnsupportedSecurityLevel(
+            "Received an unauthenticated message for a user with auth-key!"
+        )
+    if credentials.priv is not None and not flags.priv:
+        raise UnsupportedSecurityLevel(
+            "Received an unencrypted message for a user with priv-key!"
+        )
 
 
 def validate_usm_message(message: PlainMessage) -> None:
